@@ -281,7 +281,7 @@ def run(ctx):
         tp = os.path.join(ctx.work.path, "c19-%s.ndjson" % lang)
         write_ndjson(tp, [{k: v for k, v in e.items() if k not in ("src", "cname", "lang")} for e in le])
         cfgp = os.path.join(d, "SpaceTrace_%s.cfg" % lang)
-        open(cfgp, "w").write("SPECIFICATION TSpec\nCONSTANTS\n  Lang = \"%s\"\n  Cpp11Shift = TRUE\n  Fixed = TRUE\n  Fixed2 = TRUE\n  Fixed3 = TRUE\n"
+        open(cfgp, "w").write("SPECIFICATION TSpec\nCONSTANTS\n  Lang = \"%s\"\n  Cpp11Shift = TRUE\n  Fixed = TRUE\n  Fixed2 = TRUE\n  Fixed3 = TRUE\n  Fixed4 = TRUE\n"
                               "  Emit = FALSE\n  MaxGap = 3\n  WrongOption = FALSE\nPOSTCONDITION TraceAccepted\nCHECK_DEADLOCK FALSE\n" % lang)
         rt = tlc_retry("SpaceTrace", "SpaceTrace_%s" % lang, cwd=d, env={"TRACE": tp}, workers=1, timeout=3000, xmx="8g")
         if rt.error:
